@@ -7,6 +7,7 @@
 #include <etl/_cstddef/size_t.hpp>
 #include <etl/_exception/exception.hpp>
 #include <etl/_exception/raise.hpp>
+#include <etl/_functional/invoke_r.hpp>
 #include <etl/_memory/addressof.hpp>
 #include <etl/_new/operator.hpp>
 #include <etl/_type_traits/aligned_storage.hpp>
@@ -61,7 +62,7 @@ struct inplace_func_vtable {
     template <typename C>
     explicit constexpr inplace_func_vtable(wrapper<C> /*ignore*/)
         : invoke_ptr{[](storage_ptr_t storagePtr, Args&&... args) -> R {
-            return (*static_cast<C*>(storagePtr))(static_cast<Args&&>(args)...);
+            return etl::invoke_r<R>(*static_cast<C*>(storagePtr), static_cast<Args&&>(args)...);
         }}
         , copy_ptr{[](storage_ptr_t dstPtr, storage_ptr_t srcPtr) -> void {
             ::new (dstPtr) C{(*static_cast<C*>(srcPtr))};
